@@ -39,6 +39,7 @@ func globalFunc(p *an.Prog, name string) *ssa.Function {
 }
 
 func retryRules(c *Ctx) {
+	retryExtra(c)
 	P := c.P
 	// FatalError wraps exactly its argument in the type that isFatalError / unpackFatalError recognise
 	if q := c.F("FatalError"); q.ok() {
@@ -484,4 +485,77 @@ func sameRead(P *an.Prog, a, b ssa.Value) bool {
 		return ca != nil && ca == cb
 	}
 	return false
+}
+
+// retryExtra: two clauses the loop rules above do not see.
+//   - "the wait is cut short by cancellation": nothing in retry.go sleeps unconditionally (time.Sleep); the only blocking
+//     operation of waitDuration is its select over the timer and ctx.Done().
+//   - "unless the call in flight ends the loop by succeeding or failing fatally": once the operation was called, a
+//     cancellation return is reachable only through the not-fatal side of isFatalError(err) (then the wait, then the
+//     check at the top of the loop) - not by looking at the context before the error was classified.
+func retryExtra(c *Ctx) {
+	P := c.P
+	var sleeps []ssa.Instruction
+	n := 0
+	for _, fn := range P.AllFuncs() {
+		if !strings.Contains(P.Pos(fn.Pos()), "retry.go") {
+			continue
+		}
+		n++
+		sleeps = append(sleeps, P.CallsTo(fn, "time.Sleep")...)
+	}
+	var sp []string
+	for _, in := range sleeps {
+		sp = append(sp, P.InstrPos(in))
+	}
+	c.C.Add("GOX", "retry.go", "no wait ignores cancellation", len(sleeps) == 0 && n > 0,
+		pickS(len(sleeps) == 0, "no time.Sleep in retry.go: the back-off wait is the select over the timer and ctx.Done()", "retry.go sleeps unconditionally (time.Sleep): a cancellation during the back-off wait is noticed only when the full delay has passed"), sp...)
+	q := c.F("ExponentialRetry")
+	if !q.ok() {
+		return
+	}
+	ls := closuresOf(q.fn, func(f *ssa.Function) bool { return an.ClosureRole(f) == "ret" })
+	if len(ls) != 1 {
+		return
+	}
+	l := &fq{c: c, fn: ls[0], name: an.FuncName(ls[0])}
+	valueCell := cellOfParam(q.fn, q.fn.Params[2])
+	ops := an.AllInstrs(l.fn, func(in ssa.Instruction) bool {
+		call, ok := in.(*ssa.Call)
+		if !ok || call.Call.IsInvoke() || call.Call.StaticCallee() != nil {
+			return false
+		}
+		ld, isL := isLoad(call.Call.Value)
+		return isL && valueCell != nil && P.CellOf(ld.X) == valueCell
+	})
+	fat := P.CallsTo(l.fn, "isFatalError")
+	if len(ops) != 1 || len(fat) != 1 {
+		return // reported by the loop rules
+	}
+	fifs, fnegs := P.IfsOn(l.fn, func(cond ssa.Value) bool { return cond == ssa.Value(fat[0].(*ssa.Call)) })
+	if len(fifs) != 1 {
+		return
+	}
+	fatalEdge := 0
+	if fnegs[0] {
+		fatalEdge = 1
+	}
+	// returns that carry ctx.Err()
+	for _, r0 := range returnsOf(l.fn) {
+		for _, tp := range c.returnTuples(r0) {
+			isCancel := false
+			for _, sv := range P.SourcesAt(tp.vals[1], r0) {
+				if call, ok := sv.(*ssa.Call); ok && call.Call.IsInvoke() && call.Call.Method.Name() == "Err" {
+					isCancel = true
+				}
+			}
+			if !isCancel {
+				continue
+			}
+			// from the operation to this return without taking the not-fatal edge: must not exist
+			bypass := P.PathExists(l.fn, ops[0], an.Is(tp.site), nil, cutEdge(fifs[0], 1-fatalEdge))
+			l.add("PATH", "a call in flight that fails ends the loop by its own verdict, not by a cancellation noticed meanwhile", !bypass,
+				pickS(!bypass, "after value() a cancellation return is reachable only through isFatalError(err) == false", "after the operation returned an error the loop can answer with the context's error before classifying that error: a fatal failure is reported as a cancellation, without the call's result"), tp.site)
+		}
+	}
 }
